@@ -22,12 +22,21 @@ integers: the sum statements are about the mathematical sums; what Go's int64 ma
 The fetch goroutines finish in any order; the model processes upstreams in list order and the
 `_order` theorems show that what is claimed does not depend on that order.
 
-`Fixes.all` is the tree with all six guards: the four committed ones (F4, null array elements, missing
-latency member, channel not found) and the two proposed in round 7 (`nilPct` = fixes/F53, `clearNodes` =
-fixes/F54 — until they are committed to /repo the two defects are open known findings). The `*_without_*`
-theorems are the Lean witnesses that the unguarded code panics (each replayed on the real code by the check).
+`Fixes.all` is the tree with all seven guards: the six committed to /repo (F4, null array elements, missing
+latency member, channel not found, `nilPct` = F53 / commit 905ac51, `clearNodes` = F54 / commit 786fd8f) and one that
+is proposed (`inactiveErrs` = fixes/F58: `GET /api/topics?inactive=true` throws the errors of its per-topic fetches
+away — until the integrator commits it this is the open known finding `view:inactive-drops-errors`). The `*_without_*`
+theorems are the Lean witnesses that the unguarded code misbehaves (each replayed on the real code by the check).
 One clause of the property is false of the code *and* of `Fixes.all`: "502 only when none answers" with
 zero known producers (`only_502_when_something_failed_false`, open finding, no patch).
+
+What is a statement about the upstreams and what is not (audit 7, C24): `sum_fields`, `channels_merge` speak about
+intermediate values (any list of reports / the reports GetNSQDStats returned); `topic_view_is_sum` and
+`channel_view_is_merge` only *unfold the handler* (they hold by the definition of `topicView` / `channelView` and
+are kept as lemmas). The statements that tie a view to the `World` are those of the section "The views and what the
+upstreams hold": `topic_view_from_upstreams`, `channel_view_from_upstreams`, `counter_view_from_upstreams`,
+`nodes_view_lookupd` / `_direct`, `node_view_from_upstream`, `topic_producers_direct`, `topic_view_shown_int64`,
+`partial_warning_*_nsqd`, and `inactive_warning` for `?inactive=true`.
 -/
 namespace Nsq.Props.C18
 open Nsq.Model.Aggregate
@@ -380,8 +389,9 @@ theorem partial_warning_counter (w : World) (v : View) (h : counterView Fixes.al
       subst h
       exact ⟨fun hall => absurd (hrule.1.2 hall) (by simp), fun _ => ⟨rfl, by simp [hf]⟩⟩
 
-/-- What `/api/topics/:t` shows is `sum_fields` applied to the node reports GetNSQDStats returned,
-and what `/api/topics/:t/:c` shows is the `channels_merge` entry of the channel. -/
+/-- Unfolding lemma (holds by the definition of `topicView` / `channelView`; no statement about the upstreams — that
+is `topic_view_from_upstreams` / `channel_view_from_upstreams`): what `/api/topics/:t` shows is `sum_fields` applied to
+the node reports GetNSQDStats returned, and what `/api/topics/:t/:c` shows is the `channels_merge` entry of the channel. -/
 theorem topic_view_is_sum (w : World) (name : String) (v : View)
     (h : topicView Fixes.all w name = .ok v) (h200 : v.status = 200) :
     ∃ ps f1 ts m f2 t, getTopicProducers Fixes.all w name = .ok (.got ps f1) ∧
